@@ -86,8 +86,11 @@ def rot_spec(rng, dim=None, n=1):
 
 def b_matrix(rng):
     kap = rng.choice([1.0, 3.0, 10.0, 1e2, 1e3, 1e4, 1e5, 1e6])
-    base = loguniform(rng, 0.05, 1.0)               # reciprocal lattice lengths ~ 1/(1..20 angstrom)
-    d = [base, base * kap ** rng.random(), base * kap]
+    base = loguniform(rng, 1e-3, 1.0)               # reciprocal lattice lengths ~ 1/(1..1000 angstrom): large cells have tiny det(B)
+    if rng.random() < 0.5:
+        d = [base, base * kap ** rng.random(), base * kap]
+    else:
+        d = [base, base / kap ** rng.random(), base / kap]
     rng.shuffle(d)
     N = [[0.0] * 3 for _ in range(3)]
     for i, j in ((0, 1), (0, 2), (1, 2)):
@@ -295,6 +298,14 @@ def statement_checks(ctx, groups, res, found):
         ops = r['operands']
         npix = len(ops['scattered_beam']['values'])
         lam = ops['wavelength']
+        j2 = r.get('join2d')
+        if j2 is not None and (j2.get('error') or j2.get('n_mismatch')):
+            d = {'group': g['id'], 'kernel': 'Q_vec_from_Q_elements', 'components': 'Qx(a,b), Qy(b,a), Qz(a,b), shape ' + str(j2.get('shape')),
+                 'observed': j2}
+            ctx.violation('join:2d-components-in-different-dim-order',
+                          'Q_vec_from_Q_elements does not pair 2-d components by dimension label when one component is stored '
+                          f'in the other dim order (reassembly is not lossless): {d}', {'case': d})
+            found.append(d)
         for key in ('Qel', 'Qvec', 'UB', 'hkl', 'hkl_el', 'rejoined'):
             if key in r and 'error' in r[key]:
                 d = {'group': g['id'], 'kernel': key, 'error': r[key]['error'], 'text': r[key].get('error_text')}
